@@ -57,5 +57,5 @@ for line in body.split("\n"):
     raise SystemExit("unrecognised line in montgomery_invert: " + s)
 assert nsm == 27 and e["y"] == L - 2, (nsm, e["y"], L - 2)
 d = os.path.join(os.path.dirname(os.path.abspath(__file__)), "..", "contracts", "lib")
-open(os.path.join(d, "sg_invert_chain.inc"), "w").write("\n".join(out) + "\n")
+open(sys.argv[2] if len(sys.argv) > 2 else os.path.join(d, "sg_invert_chain.inc"), "w").write("\n".join(out) + "\n")
 print("wrote lib/sg_invert_chain.inc; final exponent == l-2:", e["y"] == L - 2)
